@@ -9,7 +9,7 @@ COQ_PRELUDE = ''
 PER_FILE = 60
 CASE_TIMEOUT = 20
 RULE = ('a case = a publication history (1-8 partial float series over 6 or 12-20 observation dates, stamps drawn from 5 days, '
-        'values repeating / reverting / NaN / +-inf, int or float dtype, several versions sharing a stamp, dates that first appear late, a version without rows, named index / named Series, '
+        'observation dates a year before the stamps, around them, or after them (forward-looking data: forecasts published before their observation date), values repeating / reverting / NaN / +-inf, int or float dtype, several versions sharing a stamp, dates that first appear late, a version without rows, named index / named Series, '
         'frames of several hundred rows; stamps at midnight or with a time of day down to the microsecond, spelled as datetime / date / Timestamp / datetime64 / ISO string), merged in order - one version per call or several versions in one call - with '
         'bi_merge(store, Bi(series, stamp)) - the five stamps are consecutive days in 2021, or lie in 2100-2105 (after the machine clock), or a mix of both - then read with bi_read at every time before / between (12 h or one microsecond off a stamp) / on / after the stamps (asof spelled as datetime / date / Timestamp / datetime64) and with '
         'asof=None, what in {-1, 0}; optionally one version is merged once more and all reads are repeated. Half of the histories grow the '
@@ -34,6 +34,12 @@ LEVEL_NOTE = ('trusted: Coq kernel/vm_compute; modelled not verified: the pandas
 TECHNIQUE = 'Coq proof (induction over histories with a per-date column invariant) + differential correspondence in vm_compute + property-text oracle'
 
 D0 = datetime.datetime(2020, 1, 1)
+def obs_date(case, d):
+    """observation date d of the case: 2020-01-01 + d days by default (every stamp is later than every observation date); 'dshift' moves
+    the observation dates so that they lie before, around or after the stamps (forecasts, forward curves: published now, observed later)"""
+    return D0 + DAY * (d + case.get('dshift', 0))
+def date_id(case, t):
+    return (t - D0).days - case.get('dshift', 0)
 S0 = datetime.datetime(2021, 1, 1)
 H12 = datetime.timedelta(hours=12)
 DAY = datetime.timedelta(days=1)
@@ -106,7 +112,7 @@ def _val(x):
 def _pv(v): return float('nan') if v is None else float(v)
 
 def _series(case, rows):
-    idx = pd.DatetimeIndex([D0 + DAY * d for d, _ in rows], name=case.get('index_name'))
+    idx = pd.DatetimeIndex([obs_date(case, d) for d, _ in rows], name=case.get('index_name'))
     plain = all(isinstance(v, int) for _, v in rows)
     if case.get('int_dtype') and plain and rows:
         return pd.Series([v for _, v in rows], index=idx, dtype=int, name=case.get('series_name'))
@@ -136,13 +142,13 @@ def _bi(case, s, rows):
         raise StampViolation('Bi must return an already bitemporal frame / a frame with asof=None unchanged')
     return b
 
-def _obs_read(r):
+def _obs_read(case, r):
     if r is None or len(r) == 0:
         return []
     if isinstance(r, pd.DataFrame) and r.shape[1] == 1:      # versions published as one-column frames read back as a one-column frame
         r = r.iloc[:, 0]
     assert isinstance(r, pd.Series), type(r)
-    return [[(t - D0).days, _val(x)] for t, x in zip(r.index, r.values)]
+    return [[date_id(case, t), _val(x)] for t, x in zip(r.index, r.values)]
 
 def _obs_store(case, st):
     if st is None:
@@ -151,7 +157,7 @@ def _obs_store(case, st):
     assert len(cols) == 1, cols
     back = {stamp_dt(case, s): 2 * s for s in range(5)}
     # a stamp that is none of the published ones is shown as -7
-    return [[(t - D0).days, back.get(u.to_pydatetime(), -7), _val(x)] for t, u, x in zip(st.index, st['updated'], st[cols[0]].values)]
+    return [[date_id(case, t), back.get(u.to_pydatetime(), -7), _val(x)] for t, u, x in zip(st.index, st['updated'], st[cols[0]].values)]
 
 def expected(hist, t2, what):
     """the property text, by a plain loop over the history: {date: value} (value None = NaN)"""
@@ -184,7 +190,7 @@ def publish_work(case):
     """the publisher keeps ONE working table (a one-column DataFrame, or a Series), revises it in place and publishes it again and again:
     each publication must record the table as it is at that moment and must leave the caller's table untouched"""
     hist = case['hist']; dates = [d for d, _ in hist[0][1]]
-    idx = pd.DatetimeIndex([D0 + DAY * d for d in dates], name=case.get('index_name'))
+    idx = pd.DatetimeIndex([obs_date(case, d) for d in dates], name=case.get('index_name'))
     if case['work'] == 'df':
         work = pd.DataFrame({'px': [float('nan')] * len(dates)}, index=idx)
     else:
@@ -193,8 +199,8 @@ def publish_work(case):
     for i, (s, rows) in enumerate(hist):
         assert [d for d, _ in rows] == dates
         for d, v in rows:                                  # revise in place
-            if case['work'] == 'df': work.loc[D0 + DAY * d, 'px'] = _pv(v)
-            else: work.loc[D0 + DAY * d] = _pv(v)
+            if case['work'] == 'df': work.loc[obs_date(case, d), 'px'] = _pv(v)
+            else: work.loc[obs_date(case, d)] = _pv(v)
         before = _frame_state(work); t = spell(stamp_dt(case, s), case.get('stamp_form', 'dt'))
         if case.get('pub', 'Bi') == 'Bi':
             b = Bi(work, t)
@@ -216,7 +222,7 @@ def impl(case):
     ordered = all(hist[i][0] <= hist[i + 1][0] for i in range(len(hist) - 1))
     af = case.get('asof_form', 'dt')
     def read_all(st):
-        return [_obs_read(bi_read(st, spell(asof_dt(case, t), af), w)) for t, w in case['reads']]
+        return [_obs_read(case, bi_read(st, spell(asof_dt(case, t), af), w)) for t, w in case['reads']]
     try:
         store = None
         if case.get('work'):
@@ -268,13 +274,20 @@ def nontrivial(case, result):
         seen |= {d for d, _ in rows}
     return False
 
+def date_era(case):
+    """where the observation dates lie relative to the five stamps"""
+    ds = [d for _, rows in case['hist'] for d, _ in rows] or [0]
+    lo, hi = obs_date(case, min(ds)), obs_date(case, max(ds))
+    s0, s4 = stamp_dt(case, 0), stamp_dt(case, 4)
+    return 'before' if hi < s0 else 'after' if lo > s4 else 'around'
+
 def shape(case):
     n = sum(len(rows) for _, rows in case['hist'])
     cal = case.get('cal', DEFAULT_CAL)
     era = 'past' if cal[-1] < FUTURE else 'future' if cal[0] >= FUTURE else 'past+future'
     h = case['hist']
     ordered = all(h[i][0] <= h[i + 1][0] for i in range(len(h) - 1))
-    extras = ''.join(':%s=%s' % (k, case[k]) for k in ('work', 'pub', 'input') if case.get(k)) + ''.join(':' + k for k in ('tod', 'groups', 'index_name', 'series_name', 'int_dtype') if case.get(k)) + \
+    extras = (':dates=%s' % date_era(case)) + ''.join(':%s=%s' % (k, case[k]) for k in ('work', 'pub', 'input') if case.get(k)) + ''.join(':' + k for k in ('tod', 'groups', 'index_name', 'series_name', 'int_dtype') if case.get(k)) + \
              ''.join(':%s=%s' % (k, case[k]) for k in ('eps', 'stamp_form', 'asof_form') if case.get(k))
     vals = {v for _, rows in h for _, v in rows}
     return '%s:%s:v%d:%s%s%s%s%s' % (era, 'ordered' if ordered else 'unordered', len(h), 'rows>100' if n > 100 else 'rows>16' if n > 16 else 'rows<=16',
@@ -354,6 +367,9 @@ def gen_cases(rng, tier):
     return cases
 
 def decorate(rng, case, work=False):
+    if rng.random() < 0.45:       # forward-looking data: observation dates around / after / long after the stamps (default: a year before them)
+        cal = case.get('cal', DEFAULT_CAL)
+        case['dshift'] = rng.choice([366 + cal[0] - 2, 366 + cal[2], 366 + cal[2] - 3, 366 + cal[4] + 1, 366 + cal[4] + 400, 366 + cal[1] - 1, 40000])
     """kinds of input the statement's quantifier includes but plain histories never show"""
     hist = case['hist']
     ordered = all(hist[i][0] <= hist[i + 1][0] for i in range(len(hist) - 1))
@@ -396,7 +412,7 @@ def shrink(case):
         yield dict(case, again=None)
     if case.get('groups'):
         yield {k: v for k, v in case.items() if k != 'groups'}
-    for k in ('tod', 'eps', 'stamp_form', 'asof_form', 'index_name', 'series_name', 'int_dtype', 'cal'):
+    for k in ('tod', 'eps', 'stamp_form', 'asof_form', 'index_name', 'series_name', 'int_dtype', 'cal', 'dshift'):
         if case.get(k) is not None:
             yield {kk: v for kk, v in case.items() if kk != k}
     for i in range(len(h)):
